@@ -335,40 +335,62 @@ def mbox_worker(bdir, tier, lo, hi):
         snapshot = open(E.home + "/Mailbox", "rb").read()
         E.clearlog()
         st = E.run(msg, sender, "./Mailbox")
-        ref = [e for e in shim.read_log(E.log) if "n2" in e and e["c"] in ("write", "fsync")]
+        entry = os.path.getsize(E.home + "/Mailbox") - size0
         with open(E.home + "/Mailbox", "wb") as f:
             f.write(snapshot)
-        for e in ref:
-            for action in {"write": ["fail=ENOSPC", "fail=EIO", "short=1", "short=100"], "fsync": ["fail=EIO"]}[e["c"]]:
-                E.clearlog()
-                st = E.run(msg, sender, "./Mailbox", plan="qmail-local:%d:%s" % (e["n2"], action))
-                evs3 = shim.read_log(E.log)
-                res.evaluations += 1
-                if not any(x.get("inj") in ("fail", "short") for x in evs3):
-                    res.inconclusive.append("mbox fault %s@%d did not fire" % (action, e["n2"]))
-                    continue
-                d = res.counters.setdefault("faults_fired_by_site", {})
-                key = "mbox:%s:%s" % (e["c"], action)
-                d[key] = d.get(key, 0) + 1
-                wit = {"message": core.hx(msg[:80]), "msg_len": len(msg), "fault": action, "at_call": e["n2"], "call": e["c"], "size_before": size0}
-                code = os.WEXITSTATUS(st) if (st is not None and os.WIFEXITED(st)) else -1
-                size1 = os.path.getsize(E.home + "/Mailbox")
-                if action.startswith("short"):
-                    # a short write is completed by the next write: the delivery must succeed and read back
-                    if code == 0:
-                        judge_mbox(res, E, delivered + [(msg, sender, b"user-ext")], "fault-write-short", wit)
-                    elif size1 != size0:
-                        res.violate("C12/mbox/not-rolled-back/fault-write-short", "exit %s, size %d -> %d" % (stat_str(st), size0, size1), wit)
-                else:
-                    if code != 111:
-                        res.violate("C12/mbox/exit-status-after-failed-%s" % e["c"], "exit %s after an injected %s" % (stat_str(st), action), wit)
-                    if size1 != size0:
-                        res.violate("C12/mbox/not-rolled-back/fault-%s" % e["c"], "failed %s: mailbox size %d -> %d (not restored)" % (e["c"], size0, size1), wit)
-                    elif open(E.home + "/Mailbox", "rb").read() != snapshot:
-                        res.violate("C12/mbox/content-changed-after-rollback", "size restored but earlier content changed", wit)
-                with open(E.home + "/Mailbox", "wb") as f:
-                    f.write(snapshot)
-                res.nontrivial("mb-fault", idx, e["n2"], action)
+        variants = [msg]
+        if entry > 0 and (tier == "thorough" or idx % 2 == 0):
+            # the same message padded so that everything before the closing blank line fills qmail-local's 1024-byte output
+            # buffer exactly (and one byte less / more): then it is the put of that last newline which issues a write
+            base = msg if msg.endswith(b"\n") or not msg else msg + b"\n"
+            grow = (entry - 1) + (len(base) - len(msg))
+            k = (-(grow)) % 1024
+            for dk in ((0,) if tier == "quick" else (0, 1023, 1)):
+                kk = (k + dk) % 1024
+                if kk == 0:
+                    kk = 1024
+                variants.append(base + b"p" * (kk - 1) + b"\n")
+        for vi, msg in enumerate(variants):
+          E.clearlog()
+          st = E.run(msg, sender, "./Mailbox")
+          ref = [e for e in shim.read_log(E.log) if "n2" in e and e["c"] in ("write", "fsync")]
+          if vi:
+              res.counters.inc("mbox_entries_aligned_to_the_output_buffer")
+              sizes = [e.get("len") for e in ref if e["c"] == "write"]
+              res.counters.setdefault("aligned_write_sizes", {})[str(sizes[-3:])] = 1
+          with open(E.home + "/Mailbox", "wb") as f:
+              f.write(snapshot)
+          for e in ref:
+              for action in {"write": ["fail=ENOSPC", "fail=EIO", "short=1", "short=100"], "fsync": ["fail=EIO"]}[e["c"]]:
+                  E.clearlog()
+                  st = E.run(msg, sender, "./Mailbox", plan="qmail-local:%d:%s" % (e["n2"], action))
+                  evs3 = shim.read_log(E.log)
+                  res.evaluations += 1
+                  if not any(x.get("inj") in ("fail", "short") for x in evs3):
+                      res.inconclusive.append("mbox fault %s@%d did not fire" % (action, e["n2"]))
+                      continue
+                  d = res.counters.setdefault("faults_fired_by_site", {})
+                  key = "mbox:%s:%s" % (e["c"], action)
+                  d[key] = d.get(key, 0) + 1
+                  wit = {"message": core.hx(msg[:80]), "msg_len": len(msg), "fault": action, "at_call": e["n2"], "call": e["c"], "size_before": size0}
+                  code = os.WEXITSTATUS(st) if (st is not None and os.WIFEXITED(st)) else -1
+                  size1 = os.path.getsize(E.home + "/Mailbox")
+                  if action.startswith("short"):
+                      # a short write is completed by the next write: the delivery must succeed and read back
+                      if code == 0:
+                          judge_mbox(res, E, delivered + [(msg, sender, b"user-ext")], "fault-write-short", wit)
+                      elif size1 != size0:
+                          res.violate("C12/mbox/not-rolled-back/fault-write-short", "exit %s, size %d -> %d" % (stat_str(st), size0, size1), wit)
+                  else:
+                      if code != 111:
+                          res.violate("C12/mbox/exit-status-after-failed-%s" % e["c"], "exit %s after an injected %s" % (stat_str(st), action), wit)
+                      if size1 != size0:
+                          res.violate("C12/mbox/not-rolled-back/fault-%s" % e["c"], "failed %s: mailbox size %d -> %d (not restored)" % (e["c"], size0, size1), wit)
+                      elif open(E.home + "/Mailbox", "rb").read() != snapshot:
+                          res.violate("C12/mbox/content-changed-after-rollback", "size restored but earlier content changed", wit)
+                  with open(E.home + "/Mailbox", "wb") as f:
+                      f.write(snapshot)
+                  res.nontrivial("mb-fault", idx, e["n2"], action)
     E.clock.close()
     return res
 
